@@ -225,6 +225,10 @@ void ConnRef::setRoutingCheckpoints(const std::vector<Checkpoint>& checkpoints)
             vertexVisibility(m_checkpoint_vertices[i], nullptr, true, true);
         }
     }
+
+    // The current route was computed for the previous checkpoints.
+    makePathInvalid();
+    m_router->modifyConnector(this);
 }
 
 
